@@ -140,7 +140,12 @@ def run_case(ck, desc):
         if sim.SOLVER["nonzero_info"]:
             ck.violation("non-converged-solve-accepted", {"nonzero_info": sim.SOLVER["nonzero_info"]}, desc)
 
-    return judge_steps(ck, desc, desc["cls"], res, t, pp, m_i, m_f, calls)
+    out = judge_steps(ck, desc, desc["cls"], res, t, pp, m_i, m_f, calls)
+    # the stored levels are re-read after recoveries, interpolator and plots have used the object: every
+    # level is still the update of the previous one because nothing was written to
+    if sim.reread_after_use(ck, desc, res, fluid, pp, t, caller_time=time, plots=(int(desc.get("grid", {}).get("seed", 0)) % 3 == 1)) is False:
+        return True, None
+    return out
 
 
 def judge_steps(ck, desc, cls, res, t, pp, m_i, m_f, calls=0):
